@@ -239,6 +239,8 @@ func c16Scenario() *Scenario {
 		return []model.Tx{{Msgs: []model.Msg{{Kind: model.AuthzGrant, From: "W1", To: "O", URL: model.WrkPur}, {Kind: model.AuthzGrant, From: "W1", To: "O", URL: model.BcnPur}}}}
 	}}
 	s.Actions = append(s.Actions, gr)
+	// the in-place software upgrade moves the parameters from x/params into the modules' own stores: the values in force stay in force
+	s.Actions = append(s.Actions, upgradeAct())
 	s.Prefix = []string{gr.Name}
 	// behaviour that must follow the new values is attributed to C16 only on paths that contain an update
 	follow := []string{"ent.order", "anch.limit", "anch.storage", "tx.accept_unexpected:wrk.pur", "tx.reject_unexpected:wrk.pur", "tx.accept_unexpected:bcn.pur", "tx.reject_unexpected:bcn.pur", "str.feesplit", "tx.accept_unexpected:ent.decide", "tx.reject_unexpected:ent.decide"}
